@@ -73,6 +73,7 @@ def handle (ss : Session) (line : String) : Session × List String :=
           | "C10" => specC10 ss.st
           | "C03" => specC03 ss.st
           | "C04" => specC04 ss.st
+          | "C08" => specC08 ss.st
           | _ => []
         (ss, ("(n " ++ toString fs.length ++ ")") :: fs.map (fun f => f.print))
     | _ =>
